@@ -47,6 +47,8 @@ def within(num, den, exp, tol, strict=True):
     """| num/den - exp | < tol   (den > 0; exp, tol Fractions; no gcd on the big numbers)"""
     lhs = abs(num * exp.denominator - exp.numerator * den) * tol.denominator
     rhs = tol.numerator * den * exp.denominator
+    if lhs == 0:
+        return True                     # exact (max|p| = 0 makes the stated bound degenerate)
     return lhs < rhs if strict else lhs <= rhs
 
 
